@@ -16,6 +16,7 @@ error against `delta_chord` / `epsilon_rel_max`.
 -/
 import CelerVerif.Lemmas.FieldPropFinish
 import CelerVerif.Lemmas.FieldPropHelix
+import CelerVerif.Lemmas.FieldPropDrive
 
 namespace CelerVerif.FieldProp
 open CelerVerif
@@ -159,6 +160,18 @@ theorem valid_options_cfgOK (o : Options ℝ) (step : ℝ) (hs : 0 < step) (hv :
     decide_eq_true_eq] at hv
   obtain ⟨⟨⟨⟨⟨⟨⟨⟨⟨⟨⟨h1, h2⟩, h3⟩, h4⟩, h5⟩, h6⟩, h7⟩, h8⟩, h9⟩, h10⟩, h11⟩, h12⟩ := hv
   exact ⟨hs, h1, h3, h12⟩
+
+/-- C08.6 the driver contract `0 < substep ≤ requested step` is not only assumed: it holds for
+    `FieldDriver::advance` over ANY stepper (whatever states and error estimates it returns),
+    for validated options and a positive request, provided the error estimates are finite
+    numbers (`errSq` comparisons are real comparisons) -/
+theorem driver_step_in_range (o : Options ℝ) (hv : o.valid = true) (σ : Type)
+    (stp : Driver.Stepper σ ℝ) (maxChord : Option ℝ) (hmc : ∀ m, maxChord = some m → 0 < m)
+    (step : ℝ) (hs : 0 < step) (y : OdeState ℝ) (s : σ) :
+    0 < (Driver.advance o stp maxChord step y s).1.step
+    ∧ (Driver.advance o stp maxChord step y s).1.step ≤ step
+    ∧ (∀ m, (Driver.advance o stp maxChord step y s).2.1 = some m → 0 < m) :=
+  advance_range o hv σ stp maxChord hmc step hs y s
 
 /-- C08.7 `ZHelixStepper::move` is exact for the configuration it is written for: a helix about
     the z axis THROUGH THE ORIGIN.  With start point `(R cos a, R sin a, z)`, unit direction
